@@ -194,3 +194,62 @@ theorem TS.isStopping_iff (t : TS) : t.isStopping = true ↔ ∃ f dl, t = .stop
   cases t <;> simp
 
 end Kopf.C20
+
+namespace Kopf.C20
+
+theorem urgent_false {cfg : Cfg} {s : State} (h : urgent cfg s = false) :
+    rtUrgent s = false ∧ scUrgent cfg s = false
+    ∧ (∀ r, taskUrgent s (.root r) = false)
+    ∧ (∀ i, i < s.nSubs → taskUrgent s (.sub i) = false)
+    ∧ ((s.st (.root .orchestrator)).isStopping = true → noLiveSub s = false) := by
+  unfold urgent at h
+  simp only [Bool.or_eq_false_iff] at h
+  obtain ⟨⟨⟨⟨⟨⟨⟨h1, h2⟩, h3⟩, h4⟩, _⟩, _⟩, _⟩, h8⟩ := h
+  refine ⟨h1, h2, ?_, ?_, ?_⟩
+  · intro r
+    rw [List.any_eq_false] at h3
+    have := h3 r (Root.mem_all r)
+    simpa using this
+  · intro i hi
+    rw [List.any_eq_false] at h4
+    have := h4 i (List.mem_range.mpr hi)
+    simpa using this
+  · intro hs
+    rw [TS.isStopping_iff] at hs
+    obtain ⟨f, dl, hs⟩ := hs
+    simpa [hs] using h8
+
+theorem deadlinesAllow_true {cfg : Cfg} {s : State} {n : Nat} (h : deadlinesAllow cfg s n = true) :
+    (∀ r, dlAllows s.now n (s.st (.root r)) = true)
+    ∧ (∀ i, i < s.nSubs → dlAllows s.now n (s.st (.sub i)) = true)
+    ∧ (∀ dl, s.rt = .hungWait dl → s.now + n ≤ dl)
+    ∧ (∀ tc, s.sc = .cleanup tc → s.now + n ≤ tc + cfg.C) := by
+  unfold deadlinesAllow at h
+  simp only [Bool.and_eq_true] at h
+  obtain ⟨⟨⟨h1, h2⟩, h3⟩, h4⟩ := h
+  refine ⟨?_, ?_, ?_, ?_⟩
+  · intro r
+    rw [List.all_eq_true] at h1
+    exact h1 r (Root.mem_all r)
+  · intro i hi
+    rw [List.all_eq_true] at h2
+    exact h2 i (List.mem_range.mpr hi)
+  · intro dl hdl
+    simpa [hdl] using h3
+  · intro tc htc
+    simpa [htc] using h4
+
+theorem dlAllows_stopping {now n : Nat} {f : Bool} {dl : Nat} (h : dlAllows now n (.stopping f (some dl)) = true) :
+    now + n ≤ dl := by simpa [dlAllows] using h
+
+theorem taskUrgent_false {s : State} {t : Task} (h : taskUrgent s t = false) :
+    ((s.st t).live = true → s.creq t = false) ∧ (∀ f dl, s.st t = .stopping f (some dl) → s.now < dl) := by
+  unfold taskUrgent at h
+  simp only [Bool.or_eq_false_iff, Bool.and_eq_false_imp] at h
+  refine ⟨h.1, ?_⟩
+  intro f dl hst
+  have := h.2
+  simp [hst, dlReached] at this
+  exact this
+
+end Kopf.C20
